@@ -106,10 +106,13 @@ func (vm *VM) errIndexOutOfRange() runtimeError {
 
 // newPanic returns a new *PanicError with the given error message.
 func (vm *VM) newPanic(msg any) *PanicError {
+	// vm.pc has already been incremented: the instruction that panicked is
+	// the previous one.
+	info := vm.fn.InstructionInfo[vm.pc-1]
 	return &PanicError{
 		message:  msg,
-		path:     vm.fn.InstructionInfo[vm.pc].Path,
-		position: vm.fn.InstructionInfo[vm.pc].Position,
+		path:     info.Path,
+		position: info.Position,
 	}
 }
 
